@@ -8,9 +8,10 @@ Key(c) == c.fmt \o ":" \o c.type \o ":" \o c.org \o ":" \o c.dev \o (IF c.varian
 
 MaxDiff(a, b) == LET ds == {Abs(a[i][c] - b[i][c]) : i \in 1..Len(a), c \in 1..Len(a[1])} IN IF ds = {} THEN 0 ELSE CHOOSE m \in ds : \A d \in ds : d <= m
 \* rgba written to TIFF comes back multiplied by alpha (associated alpha): the specification-level cause of the known finding
+\* (tiled files: only the pixels of full tiles are premultiplied, those of partial edge tiles come back unchanged)
 Premultiplied(src, back) ==
     \A i \in 1..Len(src) : /\ back[i][4] = src[i][4]
-                           /\ \A c \in 1..3 : Abs(back[i][c] * 255 - src[i][c] * src[i][4]) <= 255
+                           /\ (back[i] = src[i] \/ \A c \in 1..3 : Abs(back[i][c] * 255 - src[i][c] * src[i][4]) <= 255)
 
 RTVerdict(ev) ==
     LET key == Key(ev) n == ev.w * ev.h
